@@ -2,6 +2,7 @@ import TsrunVerif.Driver.Path
 import TsrunVerif.Driver.Heap
 import TsrunVerif.Driver.Num
 import TsrunVerif.Driver.Json
+import TsrunVerif.Driver.RegAlloc
 
 /-! `tvdriver <model>`: line protocol, one observation line per case line. -/
 
@@ -20,5 +21,6 @@ def main (args : List String) : IO UInt32 := do
   | ["num"] => loop stdin stdout TsrunVerif.Driver.numLine; return 0
   | ["jsonext"] => loop stdin stdout TsrunVerif.Driver.jsonExtLine; return 0
   | ["json"] => loop stdin stdout TsrunVerif.Driver.jsonLine; return 0
+  | ["regalloc"] => loop stdin stdout TsrunVerif.Driver.raLine; return 0
   | ["heap"] => loop stdin stdout TsrunVerif.Driver.heapLine; return 0
   | _ => IO.eprintln "usage: tvdriver <model>"; return 2
